@@ -266,6 +266,7 @@ def c17_rf2(run):
     rf_alloc.rf137(run)
     rf_alloc.rf152(run)
     rf_alloc.rf164(run)
+    rf_alloc.rf181(run)
     rf_proto.rf163(run)
     rf_proto.rf165(run)
     run.min_instances('RF78b', 20)
@@ -300,6 +301,7 @@ def c12_rf13(run):
     rf_bounds.rf146(run)
     rf_bounds.rf160(run)
     rf_bounds.rf173(run)
+    rf_bounds.rf183(run)
     run.min_instances('RF13c', 2)
 
 
@@ -353,6 +355,7 @@ def c01_rf18(run):
     rf_x86.rf140(run)
     rf_flow.rf148(run)
     rf_fold.rf149(run)
+    rf_flow.rf179(run)
 
 
 def c04_rf18(run):
@@ -386,6 +389,7 @@ def c04_rf18(run):
     rf_fold.rf142(run)
     rf_inline.rf153(run)
     rf_inline.rf161(run)
+    rf_fold.rf180(run)
     rf_fold.rf100(run)
     rf_flow.rf71(run, units=('mir',))
     run.min_instances('RF71', 3)
@@ -408,6 +412,8 @@ def c16_rf16(run):
     rf_iface.rf132(run)
     rf_proto.rf66(run)
     rf_proto.rf163(run)
+    rf_proto.rf16f(run)
+    rf_proto.rf171(run)
     run.min_instances('RF66', 4)
     rf_x86.rf77(run)
     rf_dispatch.rf7g(run)
@@ -491,6 +497,7 @@ def c03_rf11(run):
     rf_x86.rf124(run)
     rf_proto.rf165(run)
     rf_iface.rf177(run)
+    rf_keys.rf182(run)
     rf_iface.rf132(run)
     rf_iface.rf147(run)
     rf_iface.rf151(run)
@@ -508,6 +515,7 @@ def c05_rf12(run):
     rf_keys.rf12(run)
     run.min_instances('RF12', 25)
     rf_keys.rf12b(run)
+    rf_keys.rf182(run)
     run.min_instances('RF12b', 100)
     rf_alloc.rf3b(run, units=('mir',))
     run.min_instances('RF3b', 100)
@@ -540,6 +548,7 @@ def c05_rf10(run):
     rf_abi.rf133(run)
     rf_abi.rf144(run)
     rf_templates.rf174(run)
+    rf_flow.rf178(run)
     rf_fold.rf23(run)
 
 
@@ -563,6 +572,7 @@ def c06_rf10(run):
     rf_fold.rf23(run)
     rf_abi.rf155(run)
     rf_fold.rf166(run)
+    rf_abi.rf126(run)
 
 
 def c02_rf9(run):
